@@ -421,7 +421,14 @@ func workerBatch(t *testing.T) {
 		spec := GenSpec(p, seed, tier, idx)
 		// announce before running so that the runner can attribute a hard crash of this process
 		emit(map[string]any{"start": idx, "seed": spec.Seed})
+		if f := os.Getenv("SIM_TRACE"); f != "" {
+			sim.TraceAll = true
+			sim.FullTrace = nil
+		}
 		res := RunSpec(t, spec)
+		if f := os.Getenv("SIM_TRACE"); f != "" {
+			os.WriteFile(fmt.Sprintf("%s.%d", f, idx), []byte(strings.Join(sim.FullTrace, "\n")), 0644)
+		}
 		if len(res.Violations) > 0 && replayDir != "" {
 			path := filepath.Join(replayDir, fmt.Sprintf("tmp-%s-%d.json", spec.Property, spec.Seed))
 			if err := writeReplay(path, res, false); err == nil {
